@@ -487,6 +487,12 @@ class Engine:
                     if not isinstance(v, Violation):
                         if isinstance(v, HarnessError):
                             raise
+                        import traceback as _tb
+
+                        if not any("/pyoak/" in fr.filename for fr in _tb.extract_tb(v.__traceback__)):
+                            # raised by the harness's own code without the library on the stack: a defect of
+                            # the machinery (never a verdict about the library)
+                            raise HarnessError(f"exception in harness code: {type(v).__name__}: {v} at {exception_site(v)}") from v
                         # an exception escaping from the code under test where the harness expected
                         # none: reported like any other violation (and, like any other, only
                         # believed if it reproduces on replay with plain values)
